@@ -504,7 +504,8 @@ def _classes(need_sign, need_beyond, which, M=2):
 def _range_of(p, fn_params):
     """(range call, filter?) reached by the leaf of a path: the sum of eval_summand over a range, or None."""
     e = p.leaf.expr
-    for ptn in ("sum([eval_summand(_N) for _N in _RANGE])", "sum(eval_summand(_N) for _N in _RANGE)", "sum([eval_summand(_N) for _N in _RANGE], 0)"):
+    for ptn in ("sum([eval_summand(_N) for _N in _RANGE])", "sum(eval_summand(_N) for _N in _RANGE)", "sum([eval_summand(_N) for _N in _RANGE], 0)",
+                "sum(list([eval_summand(_N) for _N in _RANGE]))", "sum(list(eval_summand(_N) for _N in _RANGE))"):
         b = X.m(ptn, e)
         if b is not None and isinstance(b['_RANGE'], ast.Call) and nf.callee_name(b['_RANGE']) == 'range':
             return b['_RANGE'], None
@@ -529,6 +530,80 @@ def _is_probe(s):
     return isinstance(s, ast.Assign) and len(s.targets) == 1 and isinstance(s.targets[0], ast.Name) and isinstance(s.value, ast.Constant)
 
 
+def _const_value(fi0, e):
+    """The value expression of a class- or module-level constant bound once, else None."""
+    if isinstance(e, ast.Name):
+        vals = fi0.module.assigns.get(e.id, [])
+        return vals[0] if len(vals) == 1 else None
+    if isinstance(e, ast.Attribute) and isinstance(e.value, ast.Name) and fi0.cls is not None and e.value.id in ('self', 'cls', fi0.cls.name):
+        return fi0.cls.attrs.get(e.attr)
+    return None
+
+
+def _table_reading(idx, fi0):
+    """The function with the table-driven idioms read as statements: helpers that only search a table inlined, next() over
+    a constant table as a first-match chain, message-then-raise fused, generator of terms as the comprehension it is."""
+    local = set(_local_names(fi0.node)) | set(fi0.params)
+
+    def rows_of(e):
+        v = _const_value(fi0, e) if not (isinstance(e, ast.Name) and e.id in local) else None
+        if isinstance(e, (ast.Tuple, ast.List)):
+            v = e
+        if isinstance(v, (ast.Tuple, ast.List)) and v.elts and all(isinstance(x, (ast.Tuple, ast.List)) for x in v.elts):
+            return list(v.elts)
+        return None
+    left = set(getattr(idx, 'unreviewed', None) or [])
+    view, done = X.inline_pure_calls(idx, fi0, only=left)
+    X.settle_unreviewed(idx, done, {fi0.qualname})
+    view = X.expand_next_over_tables(view, rows_of)
+    view = X.fuse_message_raise(view)
+    return _inline_term_generators(idx, view)
+
+
+def _inline_term_generators(idx, fi):
+    """`G(f, xs)` for a package generator `def G(f, xs): for n in xs: yield f(n)` is the comprehension [f(n) for n in xs]."""
+    from ..index import clone, set_parents
+    orig = getattr(fi, 'original', fi)
+    node = clone(fi.node)
+    mapping = {}
+    for a, b in zip(ast.walk(fi.node), ast.walk(node)):
+        if isinstance(a, ast.Call):
+            mapping[id(b)] = a
+    done = set()
+
+    class T(ast.NodeTransformer):
+        def visit_Call(self, n):
+            self.generic_visit(n)
+            a = mapping.get(id(n))
+            if a is None or len(n.args) != 2 or n.keywords:
+                return n
+            try:
+                targets, how = idx.resolve_call(orig, a)
+            except Exception:
+                return n
+            fts = [t for t in targets if hasattr(t, 'node')]
+            if len(fts) != 1 or len(fts[0].params) != 2:
+                return n
+            h = fts[0]
+            body = [s_ for s_ in h.node.body if not (isinstance(s_, ast.Expr) and isinstance(s_.value, ast.Constant))]
+            F, XS = h.params
+            if len(body) == 1 and isinstance(body[0], ast.For) and X.is_name(body[0].iter, XS) and isinstance(body[0].target, ast.Name) \
+                    and not body[0].orelse and len(body[0].body) == 1 and isinstance(body[0].body[0], ast.Expr) \
+                    and isinstance(body[0].body[0].value, ast.Yield) and X.m("%s(%s)" % (F, body[0].target.id), body[0].body[0].value.value) is not None:
+                done.add(h.qualname)
+                v = ast.Name(id='_n', ctx=ast.Load())
+                return ast.copy_location(ast.ListComp(elt=ast.Call(func=n.args[0], args=[v], keywords=[]), generators=[
+                    ast.comprehension(target=ast.Name(id='_n', ctx=ast.Store()), iter=n.args[1], ifs=[], is_async=0)]), n)
+            return n
+    new = T().visit(node)
+    if not done:
+        return fi
+    X.settle_unreviewed(idx, done, {orig.qualname})
+    ast.fix_missing_locations(new)
+    set_parents(new)
+    return X.View(fi, new)
+
+
 def d1_summation(ctx, idx):
     r = ctx.rule('D1.SUM', 'perform_summation, read as a decision tree over symbolic limits: every integer between the ordered '
                  'limits inclusive, odd/even only when configured, +-inf -> cutoff, same-sign infinities refused', floor=6)
@@ -538,14 +613,10 @@ def d1_summation(ctx, idx):
             raise AnalysisError('perform_summation: signature changed: %s' % fi0.params)
         fi1, done = X.inline_decision_calls(idx, fi0, only=set(getattr(idx, 'unreviewed', None) or []))
         X.settle_unreviewed(idx, done, {fi0.qualname})
+        fi1 = _table_reading(idx, fi1)
         def table(e):
             """A class- or module-level constant bound once to a dict display."""
-            v = None
-            if isinstance(e, ast.Name):
-                vals = fi0.module.assigns.get(e.id, [])
-                v = vals[0] if len(vals) == 1 else None
-            elif isinstance(e, ast.Attribute) and isinstance(e.value, ast.Name) and fi0.cls is not None and e.value.id in ('self', 'cls', fi0.cls.name):
-                v = fi0.cls.attrs.get(e.attr)
+            v = _const_value(fi0, e)
             return v if isinstance(v, ast.Dict) else None
         fi = X.unrolled(X.expand_table_lookups(fi1, table))
         fn = fi.node
@@ -770,7 +841,7 @@ def d2_limits(ctx, idx):
     r = ctx.rule('D2.LIMITS', 'evaluate_sum: refusals (variable in scope, complex, non-integer) raise SummationError before the '
                  'summation; cutoff by factorial use; summand closure binds and releases the index', floor=21)
     with r:
-        fi = X.unrolled(X.inline_procedures(idx, idx.func(SG + '.evaluate_sum'), only=set(getattr(idx, 'unreviewed', []) or [])))
+        fi = X.unrolled(_table_reading(idx, X.inline_procedures(idx, idx.func(SG + '.evaluate_sum'), only=set(getattr(idx, 'unreviewed', []) or []))))
         fn = fi.node
         KNOWN = {'get_limits_and_funcs', 'isinstance', 'abs', 'float', 'int', 'SummationError', 'format', 'evaluator', 'perform_summation'}
         understood = X.only_calls([s for s in fn.body if not isinstance(s, ast.FunctionDef)], KNOWN)
@@ -916,13 +987,16 @@ def _enclosing_ifs(st, fn):
 
 
 def _path_condition(st, fn):
-    """The tests of the enclosing if statements (negated on their else side) followed by the statement's own test."""
+    """The tests of the enclosing if statements (negated on their else side) followed by the statement's own test.  The else
+    side of an `if` whose body always raises adds nothing to a refusal: where that test holds the input is refused anyway."""
     conj = [st.test]
     node, p_ = st, parent(st)
     while p_ is not None and p_ is not fn:
         if isinstance(p_, ast.If):
             if any(node is x for x in p_.body):
                 conj.insert(0, p_.test)
+            elif any(node is x for x in p_.orelse) and X.body_raises(p_.body)[0]:
+                pass
             elif any(node is x for x in p_.orelse):
                 conj.insert(0, ast.UnaryOp(op=ast.Not(), operand=p_.test))
         node, p_ = p_, parent(p_)
@@ -1283,7 +1357,7 @@ def d3_author(ctx, idx):
     r = ctx.rule('D3.AUTHOR', "gen_evaluations: author's sum guarded (MITxError -> ConfigError), student's not; instructor variables "
                  "deleted in between and reloaded per sample; results in (author, student, functions) roles, also into compare_evaluations", floor=9)
     with r:
-        fi = idx.func(SG + '.gen_evaluations')
+        fi = X.scalarize(idx, idx.func(SG + '.gen_evaluations'))
         fn = fi.node
         if fi.params[:5] != ['self', 'answer', 'student_input', 'var_samples', 'func_samples']:
             raise AnalysisError('gen_evaluations: signature changed: %s' % fi.params)
@@ -1517,6 +1591,12 @@ def d4_order(ctx, idx):
         SI = st1.targets[0].id
         construct = 'check: the input count is validated before grading'
         arg1 = lib.inline_locals(c1.args[0], fn) if len(c1.args) == 1 and not c1.keywords else None
+        if isinstance(arg1, ast.Name) and arg1.id != 'student_input':
+            # a working copy of the submission: every binding of the name derives from student_input or from itself
+            defs_ = [x for x in walk_own(fn) if isinstance(x, ast.Assign) and any(X.is_name(t_, arg1.id) for t_ in x.targets)]
+            if defs_ and all(X.names_loaded(x.value) - {'list', 'tuple'} <= {'student_input', arg1.id} for x in defs_) \
+                    and any(X.mentions(x.value, 'student_input') for x in defs_):
+                arg1 = ast.Name(id='student_input', ctx=ast.Load())
         if arg1 is None or not X.mentions(arg1, 'student_input'):
             r.undecided(construct, 'argument of structure_and_validate_input not recognised: %s' % short(c1), lib.loc(fi, c1))
         else:
@@ -1958,7 +2038,11 @@ _W6_TAIL = ('        result = sum(evals)\n\n        return result\n', '        r
 _W6_ALIGN = '        # Handle even/odd numbers only, by starting on a number of the right kind\n        delta, parity = SumGrader.index_patterns[even_odd]\n        if parity is not None and first % 2 != parity:\n            first += 1\n\n'
 _W6_SORT = '        # Sort the limits\n        if first > last:\n            first, last = last, first\n\n'
 
+_W6R_TABLE = ('class SumGrader(SummationGraderBase):\n', "def _first_refusal(refusals, *args):\n    return next((message for applies, message in refusals if applies(*args)), None)\n\n_SUM_LIMIT_REFUSALS = (\n    (lambda lower, upper: isinstance(lower, complex) or isinstance(upper, complex),\n     'Summation limits must be real but have evaluated to complex numbers.'),\n    (lambda lower, upper: abs(lower) @@LOWER@@ float('inf') and int(lower) != lower,\n     'Lower summation limit does not evaluate to an integer.'),\n    (lambda lower, upper: abs(upper) != float('inf') and int(upper) != upper,\n     'Upper summation limit does not evaluate to an integer.'),\n)\n\nclass SumGrader(SummationGraderBase):\n")
+_W6R_USE = ("        # Check to ensure that sum limits are not complex.\n        if isinstance(lower, complex) or isinstance(upper, complex):\n            raise SummationError('Summation limits must be real but have evaluated '\n                                 'to complex numbers.')\n\n        # Check to ensure that sum limits are integers or infinite\n        if abs(lower) != float('inf') and int(lower) != lower:\n            raise SummationError('Lower summation limit does not evaluate to an integer.')\n        if abs(upper) != float('inf') and int(upper) != upper:\n            raise SummationError('Upper summation limit does not evaluate to an integer.')\n\n", '        message = _first_refusal(_SUM_LIMIT_REFUSALS, lower, upper)\n        if message is not None:\n            raise SummationError(message)\n\n')
+
 MUTANTS = [
+    Mutant('refusal-table-row-tests-infinite-lower', IG, [(_W6R_TABLE[0], _W6R_TABLE[1].replace('@@LOWER@@', '==')), _W6R_USE], None, 'D2'),
     Mutant('limits-ordered-after-parity-alignment', IG, [_W6_BODY, (_W6_TAIL[0], _W6_TAIL[1].replace('@@ORDER@@', _W6_ALIGN + _W6_SORT))], None, 'D1'),
     Mutant('table-helper-even-remainder-wrong', IG, [(_W5R_STEP[0][0], _W5R_STEP[0][1]), (_W5R_STEP[1][0], _W5R_STEP[1][1].replace('(2, 0)', '(2, 1)'))], None, 'D1'),
     Mutant('input-count-guard-accepts-too-many', IG, _W5R_COUNT[0], _W5R_COUNT[1].replace('len(used_inputs) == len(student_input)', 'len(used_inputs) <= len(student_input)'), 'D4'),
@@ -2033,6 +2117,7 @@ MUTANTS = [
 ]
 
 BENIGN = [
+    Benign('limit-refusals-as-first-match-table', IG, [(_W6R_TABLE[0], _W6R_TABLE[1].replace('@@LOWER@@', '!=')), _W6R_USE], None),
     Benign('summation-indices-helper-with-pattern-table', IG, [_W6_BODY, (_W6_TAIL[0], _W6_TAIL[1].replace('@@ORDER@@', _W6_SORT + _W6_ALIGN))], None),
     Benign('first-index-and-step-from-table-helper', IG, _W5R_STEP, None),
     Benign('input-count-positive-guard-items', IG, _W5R_COUNT[0], _W5R_COUNT[1]),
